@@ -80,8 +80,16 @@ impl<'a, 'b, Output: BinaryOutput> AdtSerializer<'a, 'b, Output> {
         constructor_idx: u32,
         serialize_case: impl FnOnce(&mut SerializationContext<Output>) -> Result<()>,
     ) -> Result<()> {
+        let requires_buffer = !self.buffers.is_empty();
+        if requires_buffer {
+            self.context.push_buffer(self.buffers[0].take().unwrap());
+        }
         self.context.write_var_u32(constructor_idx);
-        serialize_case(self.context)
+        serialize_case(self.context)?;
+        if requires_buffer {
+            self.buffers[0] = Some(self.context.pop_buffer());
+        }
+        Ok(())
     }
 
     fn record_field_index(&mut self, field_name: &str, chunk: u8) {
